@@ -15,7 +15,7 @@ RULE = (
 ASSUMPTIONS = [
     "attribute keys are strings other than parent/children and the constructor's own parameter names (self; name is present for Node): the importer passes attributes as keyword arguments",
 ]
-GATES = ["mon.C10.export", "mon.C10.import", "mon.C10.roundtrip", "mon.C10.args_unchanged", "C10.maxlevel_cuts", "C10.leaf_attrs", "C10.empty_children_input", "C10.nested_dictcls", "C10.options_deep", "C10.exporter_reused", "C10.aborted_export_then_reuse", "C10.tree_used_before_export"]
+GATES = ["mon.C10.export", "mon.C10.import", "mon.C10.roundtrip", "mon.C10.args_unchanged", "C10.maxlevel_cuts", "C10.leaf_attrs", "C10.empty_children_input", "C10.nested_dictcls", "C10.options_deep", "C10.exporter_reused", "C10.aborted_export_then_reuse", "C10.tree_used_before_export", "C10.maxlevel_int_subclass"]
 
 
 def plan(tier, seed, jobs):
@@ -184,6 +184,11 @@ def check_export(ctx, lib, nodes, recorded, ch, s, ml, opt, case):
     ctx.count("mon.C10.export")
     before = tree_snapshot(nodes)
     exp = ref_export(recorded, ch, s, ml, attr_fn, child_fn, dictcls)
+    if ml is not None and (s + len(oname)) % 3 == 0:
+        from .c06 import int_like
+
+        kw = dict(kw, maxlevel=int_like(ml))  # the same number as a bool / an instance of an int subclass (IntEnum-like)
+        ctx.count("C10.maxlevel_int_subclass")
     exporter = DictExporter(**kw)
     got = exporter.export(nodes[s])
     if ml is not None and ml <= R.height(ch, s):
